@@ -741,7 +741,8 @@ class HandlerGen:
             return Frag(bytes([0x93, 0, 0]), [0])
         if x < 0.90 and not in_tell:
             self.h("tell")
-            return self.expr(1) + bytes([0x1C]) + self.block(body_n(), depth + 1, in_loop, True) + bytes([0x1D])
+            # now and then the block is never closed: context.tell_object stays set for the rest of the script
+            return self.expr(1) + bytes([0x1C]) + self.block(body_n(), depth + 1, in_loop, True) + (bytes([0x1D]) if self.r.random() > 4 * self.wild else b"")
         kind = self.r.choice(["while", "with", "down", "in"] if self.nlocals else ["while"])
         body = self.block(body_n(), depth + 1, True, in_tell)
         if kind == "while":
